@@ -113,6 +113,9 @@ def check_c07(r, ex, stats):
         bad("T8", "caller's initial field changed: %r -> %r" % (r.f_before, r.f_after),
             "%s/%s" % (cls, r.outcome))
 
+    if tr.classified_by == "unknown":
+        stats["discard-unclassifiable"] += 1
+        return out
     if isinstance(r.exc, SimBudget) or tr.budget_hit:
         fin = all(s.finite_out for s in tr.steps if s.status == "ok") and \
             all(bool(np.all(np.isfinite(t.dt))) and t.dtmin > 0 for t in tr.ticks)
@@ -137,12 +140,16 @@ def check_c07(r, ex, stats):
             stats["discard-nonfinite"] += 1  # NaN state: `time >= tottime` never holds; outside the property
         return out
 
-    if r.outcome == "raised" and r.exc_injected and tr.classified_by == "identity":
-        # interrupted call: the counter still equals the number of full steps committed
-        ncommitted = len(tr.full_steps())
+    if r.outcome == "raised" and r.exc_injected:
+        # interrupted call: a full step that was not completed is not counted, and at most
+        # the one completed last may not have been counted yet
+        try:
+            ndone = len(ex.chain_steps(r))
+        except Exception:  # noqa
+            ndone = None
         stats["T6-crash"] += 1
-        if r.nit != ncommitted:
-            bad("T6", "after an interrupted call nit()=%d but %d full steps were committed" % (r.nit, ncommitted),
+        if ndone is not None and not (ndone - 1 <= r.nit <= ndone):
+            bad("T6", "after an interrupted call nit()=%d but %d full steps were completed" % (r.nit, ndone),
                 cls + "/crash-count")
         if r.totnit != r.itstart + r.nit:
             bad("T6", "after an interrupted call totnit()=%d, expected %d + %d" % (r.totnit, r.itstart, r.nit),
@@ -391,6 +398,9 @@ def check_c08(r, ex, stats):
         bad("P9", "the call changed %s" % "; ".join(r.mon_foreign[:3]), cls + "/monitors")
     tr = r.trace
     if isinstance(r.exc, SimBudget):
+        return out
+    if tr.classified_by == "unknown":
+        stats["discard-unclassifiable"] += 1
         return out
     if r.model_failed:
         stats["discard-singular"] += 1
